@@ -138,7 +138,10 @@ def main():
             if abs(whole - want_total) > 1e-6 and fam != "schulz_zimm":
                 ck.fail("not-normalised", inp, f"total probability {whole}")
             if fam == "schulz_zimm" and abs(whole - 1.0) > 2e-2:
-                ck.fail("not-normalised", inp, f"total probability {whole} (density used as mass function)")
+                # recorded finding only where the implementation IS the documented density summed over the integers 1, 2, ... (its total equals the
+                # reference's): any other deviation of the total is a new violation
+                ck.fail("not-normalised", inp, f"total probability {whole} (density used as mass function; the documented density sums to {total_ref} over the positive integers)",
+                        "schulz-zimm-density-used-as-mass-function" if abs(whole - total_ref) <= 1e-6 else None)
             # text form reproduces the parameters
             s = d.generate_string(True)
             d2 = get_distribution(s)
